@@ -7,6 +7,7 @@ from ..tlaparse import parse_state
 
 LEVEL = 'model_checking'
 TLA = os.path.join(SPEC, 'broadcast', 'MC_Broadcast.tla')
+VALMAP2 = {'x': {1: 1, 2: 0}, 'y': {1: 0, 2: 1}, 'z': {1: 'a', 2: 'b'}, 'w': {1: 1.5, 2: 2.5}, 'n1': {1: 'p', 2: 'q'}, 'n2': {1: 1, 2: 0}}
 VALMAP = {'x': {1: 'a', 2: 'b'}, 'y': {1: 10, 2: 20}, 'z': {1: 0, 2: 1}, 'w': {1: 1.5, 2: 2.5}, 'n1': {1: 'p', 2: 'q'}, 'n2': {1: 0, 2: 1}}
 
 
@@ -16,15 +17,18 @@ def name_of(l):
     return None if l.startswith('n') else {'z': ''}.get(l, l)
 
 
-def make_index(levels, keys):
-    cols = [[VALMAP[l][k[i]] for k in keys] for i, l in enumerate(levels)]
+def make_index(levels, keys, vmap=None):
+    vmap = vmap or VALMAP
+    cols = [[vmap[l][k[i]] for k in keys] for i, l in enumerate(levels)]
     if len(levels) == 1:
+        if vmap is VALMAP2 and cols[0] == list(range(len(cols[0]))):
+            return pd.RangeIndex(len(cols[0]), name=name_of(levels[0]))      # a default index that was given a name
         return pd.Index(cols[0], name=name_of(levels[0]))
     return pd.MultiIndex.from_arrays(cols, names=[name_of(l) for l in levels])
 
 
-def make_operand(a, base, kind):
-    idx = make_index(a['levels'], a['keys'])
+def make_operand(a, base, kind, vmap=None):
+    idx = make_index(a['levels'], a['keys'], vmap)
     vals = [float(base + i + 1) for i in range(len(a['keys']))]
     if kind == 'series':
         return pd.Series(vals, index=idx, name='val')
@@ -43,15 +47,16 @@ def same_frame(a, b):
     return a.equals(b) and a.index.equals(b.index) and list(a.index.names) == list(b.index.names) and list(a.columns) == list(b.columns)
 
 
-def check_state(st, okind, pkind, fs):
+def check_state(st, okind, pkind, fs, vmap=None):
     from pylife.core.broadcaster import Broadcaster
+    vmap = vmap or VALMAP
     o, p, out = st['o'], st['p'], st['out']
-    obj = make_operand(o, 100, okind)
-    prm = make_operand(p, 1000, pkind)
+    obj = make_operand(o, 100, okind, vmap)
+    prm = make_operand(p, 1000, pkind, vmap)
     obj0, prm0 = obj.copy(deep=True), prm.copy(deep=True)
     total = list(o['levels']) + [l for l in p['levels'] if l not in o['levels']]
-    case = {'object': {'kind': okind, 'levels': [name_of(l) for l in o['levels']], 'keys': [[VALMAP[l][k[i]] for i, l in enumerate(o['levels'])] for k in o['keys']]},
-            'parameter': {'kind': pkind, 'levels': [name_of(l) for l in p['levels']], 'keys': [[VALMAP[l][k[i]] for i, l in enumerate(p['levels'])] for k in p['keys']]}}
+    case = {'object': {'kind': okind, 'levels': [name_of(l) for l in o['levels']], 'keys': [[vmap[l][k[i]] for i, l in enumerate(o['levels'])] for k in o['keys']]},
+            'parameter': {'kind': pkind, 'levels': [name_of(l) for l in p['levels']], 'keys': [[vmap[l][k[i]] for i, l in enumerate(p['levels'])] for k in p['keys']]}}
     viol, known = [], []
 
     def report(what, exp=None, got=None):
@@ -95,7 +100,7 @@ def check_state(st, okind, pkind, fs):
         perm = list(range(len(want_names)))
     want = {}
     for key, orow, prow in out:
-        k = tuple(VALMAP[l][key[i]] for i, l in enumerate(total))
+        k = tuple(vmap[l][key[i]] for i, l in enumerate(total))
         want[k if len(k) > 1 else k[0]] = (100.0 + orow if orow else np.nan, 1000.0 + prow if prow else np.nan)
     got = {}
     oc, pc = first_col(ro), first_col(rp)
@@ -125,6 +130,10 @@ def _replay(args):
         pkind = rng.choice(['series', 'frame'])
         v, k = check_state(st, okind, pkind, fs)
         n += 1
+        viol += v
+        known |= set(k)
+        # the same configuration under a second key naming: integer keys that are a permutation of the positions 0..n-1, default (range) indexes
+        v, k = check_state(st, okind, pkind, fs, VALMAP2)
         viol += v
         known |= set(k)
         so, sp = set(st['o']['levels']), set(st['p']['levels'])
@@ -218,6 +227,39 @@ def other_paths(chk):
             chk.evals(1)
             if not (np.allclose(after.astype(float).to_numpy(), before.astype(float).to_numpy(), rtol=0, atol=0) and float(wc.cycles(120.0)) == fresh):
                 chk.violation('a signal was modified by a calculation that broadcast a scalar against it', {'before': before.to_dict(), 'after': after.to_dict()}, part='downstream')
+            # curves with DIFFERENT native failure probabilities, requested probability equal to one / none of them
+            cv = pd.DataFrame({'k_1': [3.0, 7.5, 3.3], 'SD': [100.0, 200.0, 150.0], 'ND': [1e6, 2e6, 5e5], 'TN': [4.0, 9.0, 2.0], 'TS': [1.5, 2.0, 1.2],
+                               'failure_probability': [0.5, 0.1, 0.025]}, index=pd.Index([11, 7, 42], name='element_id'))
+            cv0 = cv.copy(deep=True)
+            for pf in (0.5, 0.1, 0.3):
+                got = cv.woehler.cycles(loads, pf)
+                gotl = cv.woehler.load(pd.Series([1000.0, 1e5, 3e6], index=pd.Index(['a', 'b', 'c'], name='scenario')), pf)
+                for eid, row in cv.iterrows():
+                    for sc, L in loads.items():
+                        chk.evals(1)
+                        want = float(row.woehler.cycles(L, pf))
+                        g = float(got.loc[(eid, sc)])
+                        if not (np.isclose(g, want, rtol=1e-12) or (np.isinf(g) and np.isinf(want))):
+                            chk.violation('cycles of per-element curves with different native failure probabilities differ from the scalar result', {'element': eid, 'scenario': sc, 'failure_probability': pf}, want, g, part='downstream')
+                    for sc, N in (('a', 1000.0), ('b', 1e5), ('c', 3e6)):
+                        chk.evals(1)
+                        want = float(row.woehler.load(N, pf))
+                        g = float(gotl.loc[(eid, sc)])
+                        if not np.isclose(g, want, rtol=1e-12):
+                            chk.violation('load of per-element curves with different native failure probabilities differs from the scalar result', {'element': eid, 'cycles': N, 'failure_probability': pf}, want, g, part='downstream')
+            # integer cycle numbers (python int, numpy integer, integer Series): scalar result of a single curve = the element of the broadcast result
+            Ns = pd.Series([1000, 10 ** 6, 4 * 10 ** 6], index=pd.Index(['a', 'b', 'c'], name='scenario'))
+            gotl = cv.woehler.load(Ns)
+            for eid, row in cv.iterrows():
+                for sc, N in Ns.items():
+                    for Nscalar in (int(N), np.int64(N), float(N)):
+                        chk.evals(1)
+                        g, want = float(row.woehler.load(Nscalar)), float(gotl.loc[(eid, sc)])
+                        if not np.isclose(g, want, rtol=1e-12):
+                            chk.violation('load for a scalar %s cycle number of a single curve differs from the broadcast per-element result' % type(Nscalar).__name__, {'element': eid, 'cycles': int(N)}, want, g, part='downstream')
+            if not same_frame(cv, cv0):
+                chk.violation('downstream calculation modified the curves', {}, part='downstream')
+            chk.nontrivial(('downstream', 'woehler-pf'))
         except Exception as ex:
             chk.violation('downstream calculation raised %r' % ex, {}, part='downstream')
 
@@ -251,7 +293,7 @@ def run(chk):
     chk.cov['rule'] = ('TLC enumerates object level layouts {x, xy, yx, xyz, x+unnamed} x parameter level layouts {x, y, z, unnamed, xy, yx, yz, zx, zw, zyx} x all key sequences of 1..MaxRows unique keys over two '
                        'values per level (values chosen so that keys coincide with the integer codes of the recoding), restricted to the domain of C13, and computes the definition-level result '
                        '(key, object row, parameter row); every configuration is built as pandas Series/DataFrame operands (kind chosen by seed) and Broadcaster.broadcast is compared row by row, '
-                       'operands are compared with deep copies. Non-trivial = partially shared level sets. Scalar/array/parameter-vector paths and a downstream woehler calculation are checked separately.')
+                       'operands are compared with deep copies; every configuration is built under two key namings (strings/tens/codes, and integer keys that permute the positions 0..n-1 with named default RangeIndexes). Non-trivial = partially shared level sets. Scalar/array/parameter-vector paths and a downstream woehler calculation are checked separately.')
     chk.cov['exhaustive'] = True
     chk.assumptions += ['row ORDER of the result is not prescribed by C13 and not compared; keys are unique within an operand',
                         'configurations outside the domain (shared-level key tuples differ) are not generated']
